@@ -61,6 +61,7 @@ class Unit:
         self.reveal = ()
         self.ghost_params = ()
         self.obligation_props = []
+        self.yield_type = None
         self.elem_classes = {}
         self.local_types = {}
         self.ghost_const = ()
